@@ -617,30 +617,36 @@ theorem C02_add_sticky_sound (N d t R : Nat) (ht : 2 ≤ t) (hR1 : 1 ≤ R)
   sticky_nearest_transfer N d t R ht hR1 h
 
 /-- side condition of `C02_add_same_sign_partial`: the sum's exponent lies in the normal range, at least two below
-    the all-ones exponent -/
+    the all-ones exponent (the sum significant is formed with the operand of the larger exponent unshifted, as
+    blocktriple::add does) -/
 def C02_add_inRange (c : Cfg) (a b : Nat) : Bool :=
-  let S := (2 ^ c.fbits + c.fracOf a) * 8 + stickyShr ((2 ^ c.fbits + c.fracOf b) * 8) (c.expOf a - c.expOf b)
-  let E : Int := ((c.expOf a : Int) - c.bias) + sigScale (c.fbits + 3) S
+  let (hiOp, loOp) := if c.expOf b ≤ c.expOf a then (a, b) else (b, a)
+  let S := (2 ^ c.fbits + c.fracOf hiOp) * 8 + stickyShr ((2 ^ c.fbits + c.fracOf loOp) * 8) (c.expOf hiOp - c.expOf loOp)
+  let E : Int := ((c.expOf hiOp : Int) - c.bias) + sigScale (c.fbits + 3) S
   decide (c.minExpNormal ≤ E) && decide (E + c.bias + 1 < c.emax)
 
 /-- **C02 for addition, operands of the same sign** (partial): every configuration with fbits ≤ 58 (the sum triple
-    fits 64 bits), all finite operands with non-zero exponent field and equal signs, the left one with the larger or
-    equal exponent field, ANY exponent difference (the alignment shift may discard arbitrarily many bits into the
-    sticky bit), result in the normal range below the top binades: operator+ returns the IEEE rounding of the exact
-    sum. (The mirrored case and operands of opposite signs — cancellation — are open, see `C02_add_full`.) -/
+    fits 64 bits), all finite operands with non-zero exponent field and equal signs, in EITHER order and with ANY
+    exponent difference (the alignment shift may discard arbitrarily many bits into the sticky bit), result in the
+    normal range below the top binades: operator+ returns the IEEE rounding of the exact sum.
+    (Operands of opposite signs — cancellation — are open, see `C02_add_full`.) -/
 theorem C02_add_same_sign_partial (c : Cfg) (hv : c.valid = true) (a b : Nat)
     (hnarrow : c.fbits + 6 < 65)
     (hna : normalOperand c a = true) (hnb : normalOperand c b = true)
-    (hsign : c.signOf a = c.signOf b) (hge : c.expOf b ≤ c.expOf a)
+    (hsign : c.signOf a = c.signOf b)
     (hr : C02_add_inRange c a b = true) :
     satisfies c (expectOp "add" (cfVal c a) (cfVal c b)) (add c a b) = true := by
   unfold C02_add_inRange at hr
-  simp only [Bool.and_eq_true, decide_eq_true_eq] at hr
-  exact add_same_sign_ge c hv a b hnarrow hna hnb hsign hge hr.1 hr.2
+  by_cases hge : c.expOf b ≤ c.expOf a
+  · simp only [hge, if_true, Bool.and_eq_true, decide_eq_true_eq] at hr
+    exact add_same_sign_ge c hv a b hnarrow hna hnb hsign hge hr.1 hr.2
+  · simp only [hge, if_false, Bool.and_eq_true, decide_eq_true_eq] at hr
+    exact add_same_sign_lt c hv a b hnarrow hna hnb hsign (by omega) hr.1 hr.2
 
 /-- non-vacuity: 5.25 + 0.4375 in cfloat<8,3,sub> (exponent difference 4: bits of the smaller operand go into the
     sticky bit; 22.75 ulp rounds to 23 ulp = 5.75 = 0x57) -/
 example : let c : Cfg := { nbits := 8, es := 3, sub := true }
-    normalOperand c 0x55 = true ∧ normalOperand c 0x1c = true ∧ c.signOf 0x55 = c.signOf 0x1c ∧ c.expOf 0x1c ≤ c.expOf 0x55 ∧
-    C02_add_inRange c 0x55 0x1c = true ∧ add c 0x55 0x1c = 0x57 := by
+    normalOperand c 0x55 = true ∧ normalOperand c 0x1c = true ∧ c.signOf 0x55 = c.signOf 0x1c ∧
+    C02_add_inRange c 0x55 0x1c = true ∧ add c 0x55 0x1c = 0x57 ∧
+    C02_add_inRange c 0x1c 0x55 = true ∧ add c 0x1c 0x55 = 0x57 := by
   decide +kernel
